@@ -89,6 +89,7 @@ type Proc struct {
 
 	mu     sync.Mutex
 	cond   *sync.Cond
+	paused bool
 	raw    []byte
 	clean  []byte
 	chunks []chunk
@@ -176,9 +177,23 @@ func (w *lockedWriter) Write(b []byte) (int, error) {
 	return w.b.Write(b)
 }
 
+// PauseReading makes the harness stop draining the pty (a terminal that is
+// not keeping up: scroll lock, a stalled SSH link, tmux copy mode).  The
+// program's writes to its terminal block once the kernel's buffer is full.
+// A read already under way still delivers its chunk.
+func (p *Proc) PauseReading() { p.mu.Lock(); p.paused = true; p.mu.Unlock() }
+
+// ResumeReading undoes PauseReading.
+func (p *Proc) ResumeReading() { p.mu.Lock(); p.paused = false; p.mu.Unlock(); p.cond.Broadcast() }
+
 func (p *Proc) readLoop() {
 	buf := make([]byte, 32768)
 	for {
+		p.mu.Lock()
+		for p.paused {
+			p.cond.Wait()
+		}
+		p.mu.Unlock()
 		n, err := p.master.Read(buf)
 		if n > 0 {
 			now := time.Now()
@@ -420,6 +435,7 @@ func (p *Proc) Kill() {
 
 // Close releases the pty (after Kill or exit).
 func (p *Proc) Close() {
+	p.ResumeReading()
 	if !p.Exited() {
 		p.Kill()
 		select {
